@@ -169,6 +169,26 @@ CHECKS = {
              "placeholders with pending side effects are C06's.",
         technique="contract-based deductive verification: mechanical production inventory + rejecting (raises) contracts + fold "
                   "invariant on the item consumers + per-callback injection obligations, native source-level replay"),
+    "C01": dict(
+        category="proof",
+        text="Lemma over contracts: leaves (C07, C09) -> expressions (C02, C03; here / and % incl. signedness of the emitted operator) -> "
+             "statements (C05, C06; here nop, cancel_slot, boolean literals, statement-expression emitters, the type names of "
+             "declarations applied bottom-up to the real parse tree of every supported and rejected spelling) -> routines (C08) -> "
+             "behaviour (C11-C16) -> instruction: Compiler.transform_insn for ANY number of parts by fold invariant (text k is "
+             "transform(ast_k) unchanged and in order, attributes taken after the part, reset before every part, no-op list -> "
+             "'return NOP();', an exception of a part propagates and nothing is cached: rejected, never approximated). The "
+             "constituent modules' reduced instance sets are re-generated and discharged inside this check; the coverage "
+             "obligation is mechanical: each of the 43 callback productions of grammar.lark, every transformer helper and every "
+             "non-trivial text-emitting method of every IR class is under contract in some module. Open findings of the "
+             "constituents are inherited by reference. Thorough tier: monitored compilation of all 2181 bundled definitions "
+             "(run-time checking, reported separately, not counted as proved).",
+        design_ref="DESIGN.md section 3, C01",
+        note=TRUST + "The induction over the parse tree that turns per-production contracts into the end-to-end statement is metatheory "
+             "(T-IND), as is lark's bottom-up callback order (T-LARK); plugin macros by assumed contracts (T-PLUGIN); a bare "
+             "cancel_slot of a non-store has no architectural effect (T-CANCEL); float / HVX behaviours: text-level contracts only.",
+        technique="contract-based deductive verification: composition lemma - per-production contracts discharged by z3/cvc5 over the "
+                  "real callbacks and emitters, fold invariant for the instruction-level loop, mechanical coverage obligations "
+                  "linking every production and emitter to a contract"),
     "C08": dict(
         category="proof",
         text="Calling convention: cast_arg_list for argument lists of ANY length (fold invariant over enumerate(zip(args, params)): "
